@@ -149,15 +149,18 @@ impl<'s> FamVisitor for Runner<'s> {
 
         // ---- drive
         let mut got = 0usize; // values returned so far
-        let mut returned_err = [0u64; 4];
+        let mut returned_err = [0u64; NK];
         let mut polls = 0u64;
         let mut terminal: Option<Res> = None;
         let mut after_terminal = 0;
         let mut cancels_this_frame = 0u32;
         let mut ctx_unit = ();
         loop {
-            if at_boundary && !rewrapped && s.rewrap_at == Some(got as u32) {
-                // hand the parts to a fresh reader: legal at a frame boundary, must be invisible
+            // hand the parts to a fresh reader: at a frame boundary this must be invisible -- provided the source has
+            // not delivered a byte beyond that boundary yet (an implementation that reads ahead may legitimately hold
+            // such bytes in the reader, and nothing in C15 says `into_parts` hands them back)
+            let boundary = if got == 0 { 0 } else { frame_end[got - 1] };
+            if at_boundary && !rewrapped && s.rewrap_at == Some(got as u32) && core.borrow().pos == boundary {
                 let (src, buf) = reader.into_parts();
                 reader = AsyncReader::with_buffer(src, buf);
                 apply_knob(&mut reader, &self.obs);
@@ -342,7 +345,7 @@ impl<'s> FamVisitor for Runner<'s> {
     }
 }
 
-fn note_err(counts: &mut [u64; 4], k: std::io::ErrorKind) {
+fn note_err(counts: &mut [u64; NK], k: std::io::ErrorKind) {
     if let Some(e) = ErrKind::from_io(k) {
         counts[e.idx()] += 1
     }
@@ -353,7 +356,7 @@ fn res_code(r: &Res) -> u64 {
         Res::Value(_) => 1,
         Res::CleanEnd => 2,
         Res::UnexpectedEof => 3,
-        Res::IoErr(k) => 10 + ErrKind::from_io(*k).map(|e| e.idx() as u64).unwrap_or(9),
+        Res::IoErr(k) => 10 + ErrKind::from_io(*k).map(|e| e.idx() as u64).unwrap_or(99),
         Res::Decode(_) => 4,
         Res::InvalidLen => 5,
         Res::Other(_) => 6,
